@@ -96,4 +96,15 @@ MinKeySpec(cs, b) == \* least key >= b (b = 0: least key); 0 = ValueError
 MaxKeySpec(cs, b) ==
   LET S == {j \in 1..Len(cs) : b = 0 \/ cs[j] <= b} IN
   IF S = {} THEN 0 ELSE cs[CHOOSE x \in S : \A y \in S : x >= y]
+\* byValue(min) (IMerge/IDictionaryIsh): the (value, key) pairs with value >= min, "normalized" by min - division for the
+\* numeric value families when min > 0, nothing for object values -, as a sequence in descending order of (value, key).
+\* cs, vs: keys and values in key order (vs are numbers here: ranks for object values, multiples of 1/scale for the float
+\* families, chosen so that the division is exact); norm: a numeric family.
+\* Deviation "Py_ByValueNotNormalized" (pure Python implementation, recorded finding): no normalization.
+ByValuePairs(cs, vs, minv, norm, scale) ==
+  {<<(IF norm /\ minv > 0 THEN (vs[j] * scale) \div minv ELSE vs[j]), cs[j]>> : j \in {i \in 1..Len(cs) : vs[i] >= minv}}
+PairGt(a, b) == a[1] > b[1] \/ (a[1] = b[1] /\ a[2] > b[2])
+ByValueSpec(cs, vs, minv, norm, scale) ==
+  LET S == ByValuePairs(cs, vs, minv, norm, scale) IN
+  CHOOSE q \in [1..Cardinality(S) -> S] : \A i, j \in 1..Cardinality(S) : i < j => PairGt(q[i], q[j])
 =============================================================================
